@@ -17,7 +17,7 @@ theorem grow_requestTerminate (s : EState) (k r : String) : Grow s (requestTermi
   split
   · exact grow_refuse s k
   · split
-    · exact (grow_of_stk hp).trans (grow_refuse _ _)
+    · exact grow_refuse _ _
     · rename_i s' hs
       exact (grow_of_stk hp).trans ((setState_ctl_stk hs).trans (grow_of_stk (ha _ _)))
 
